@@ -134,10 +134,10 @@ def build_rt():
 _bins = {}
 
 
-def build_scen(scen, v, repo=None, extra_wraps=(), extra_flags=(), extra_srcs=()):
+def build_scen(scen, v, repo=None, extra_wraps=(), extra_flags=(), extra_srcs=(), ldflags=()):
     """compile scen/<scen>.c against variant v and link with the runtime; returns the binary"""
     repo = repo or REPO
-    key = (scen, v, repo, tuple(extra_wraps), tuple(extra_flags))
+    key = (scen, v, repo, tuple(extra_wraps), tuple(extra_flags), tuple(ldflags))
     if key in _bins:
         return _bins[key]
     lib = build_lib(v, repo)
@@ -158,7 +158,7 @@ def build_scen(scen, v, repo=None, extra_wraps=(), extra_flags=(), extra_srcs=()
         objs.append(xo)
     linker = 'g++' if var['lang'] == 'cpp' else 'gcc'
     wraps = ','.join('--wrap=' + w for w in list(WRAPS) + list(extra_wraps))
-    _run([linker, '-pthread'] + var['san'] + ['-o', out] + objs + [rt, '-Wl,' + wraps, lib, '-ldl'])
+    _run([linker, '-pthread'] + var['san'] + list(ldflags) + ['-o', out] + objs + [rt, '-Wl,' + wraps, lib, '-ldl'])
     _bins[key] = out
     return out
 
